@@ -71,13 +71,27 @@ macro_rules! numtype {
             hi = lo;
         }
         let mut def = mk(raw[2]);
-        if def < lo {
-            def = lo;
+        // now and then the configured default is left outside the bounds: DEFault "yields the configured default" and a
+        // resolved value "always lies within [min, max]" cannot both hold then, so either the default or -222 is accepted
+        let def_outside_ok = rng.chance(1, 10);
+        if !def_outside_ok {
+            if def < lo {
+                def = lo;
+            }
+            if def > hi {
+                def = hi;
+            }
         }
-        if def > hi {
-            def = hi;
-        }
+        let def_is_outside = def < lo || def > hi;
         let with_default = rng.bool();
+        // one limit that compares with nothing (NaN, float-backed types only): no value lies within such bounds
+        let probe = mk(f64::NAN);
+        #[allow(clippy::eq_op)]
+        let is_float = probe != probe;
+        let nan_limit = is_float && rng.chance(1, 25);
+        if nan_limit {
+            if rng.bool() { hi = mk(f64::NAN) } else { lo = mk(f64::NAN) }
+        }
         // the data element
         let mut lit = String::new();
         let k = tokens(rng, &mut lit);
@@ -133,6 +147,20 @@ macro_rules! numtype {
         }
         ctx.count(match expect_kw { Some(_) => "elements.keyword", None if nv.is_ok() => "elements.value", None => "elements.rejected-by-underlying-type" });
         // 2. resolution
+        if nan_limit {
+            if let Ok(NumericValue::Value(x)) = nv {
+                #[allow(clippy::eq_op)]
+                if x == x {
+                    ctx.count("resolve.value-against-a-NaN-limit");
+                    for (how, r) in [("build", nv.clone().unwrap().build().max(hi).min(lo).finish()), ("finish_with", nv.clone().unwrap().finish_with(hi, lo)), ("new", NumericBuilder::new(nv.clone().unwrap(), hi, lo).finish())] {
+                        if !matches!(&r, Err(e) if e.get_code() == -222) {
+                            ctx.violation("C17:value-accepted-although-a-limit-is-NaN", detail(&format!("{} -> {:?}", how, r.as_ref().map_err(|e| e.get_code()))));
+                        }
+                    }
+                }
+            }
+            return;
+        }
         if let Ok(v) = nv {
             let mut b = v.build().max(hi).min(lo);
             if with_default {
@@ -147,9 +175,12 @@ macro_rules! numtype {
                 NumericValue::Up | NumericValue::Down => Err(-224),
                 NumericValue::Value(x) => if x >= lo && x <= hi { Ok(x) } else { Err(-222) },
             };
+            let is_def = matches!(v, NumericValue::Default);
             let same = |a: &Result<$t, Error>, w: &Result<$t, i16>| match (a, w) {
                 (Ok(x), Ok(y)) => $cmp(x, y),
                 (Err(e), Err(c)) => e.get_code() == *c,
+                // a configured default outside the bounds may also be refused as out of range
+                (Err(e), Ok(_)) if is_def && with_default && def_is_outside => e.get_code() == -222,
                 _ => false,
             };
             let kind = match v { NumericValue::Maximum => "MAX", NumericValue::Minimum => "MIN", NumericValue::Default => "DEF", NumericValue::Up => "UP", NumericValue::Down => "DOWN", NumericValue::Value(x) => if x == lo || x == hi { "value-on-bound" } else if x > lo && x < hi { "value-inside" } else { "value-outside" } };
@@ -228,7 +259,7 @@ macro_rules! numtype {
             // the invariant of the statement, checked on its own
             for res in [&r, &r2] {
                 if let Ok(x) = res {
-                    if !(*x >= lo && *x <= hi) {
+                    if !(*x >= lo && *x <= hi) && !(is_def && def_is_outside) {
                         ctx.violation("C17:resolved-value-outside-bounds", detail(&format!("{:?}", x)));
                     }
                 }
